@@ -74,6 +74,8 @@ INDEX = {
  "C14": {"package": ".", "harnesses": [
    {"name": "VerifH14Value", "common": {"max_depth": 2000}, "quick": {"bounds": {"depths": 2, "cols": 1}}, "thorough": {"bounds": {"depths": 3, "cols": 2, "symbase": 1}}},
    {"name": "VerifH14Range", "common": {"max_depth": 2000}, "quick": {"bounds": {"depths": 2, "cols": 1, "ops": 7}}, "thorough": {"bounds": {"depths": 3, "cols": 2, "ops": 7, "symbase": 1}}},
+   {"name": "VerifH14Aggregates", "common": {"max_depth": 3000}, "quick": {"bounds": {"depths": 2, "cols": 2}}, "thorough": {"bounds": {"depths": 3, "cols": 2, "symbase": 1}}},
+   {"name": "VerifH14Import", "common": {"max_depth": 3000}, "quick": {"bounds": {"batches": 2}}, "thorough": {"bounds": {"batches": 3}}},
  ]},
  "C15": {"package": ".", "harnesses": [
    {"name": "VerifH15Algebra", "common": {"max_depth": 3000}, "quick": {"bounds": {"bits": 3, "trees": 9, "colhis": 1}}, "thorough": {"bounds": {"bits": 4, "trees": 9, "colhis": 2}}},
